@@ -16,13 +16,16 @@ def run(tier, seed, replay=None):
     head = open(replay).read(4000) if replay else ''
     if not replay or 'case srv ' not in head:
         differential(check, 'C07', 'topic', 'c07', tier, seed, replay, 1500, 100000, extract_between_bars)
+        if tier == 'thorough' and not replay:
+            # every Unicode scalar value once, at one of six positions of an otherwise valid name (shards interleave)
+            differential(check, 'C07', 'topicsweep', 'c07', tier, seed, None, 16, 16, extract_between_bars, shards=16)
     if not replay or 'case srv ' in head:
         # server side: names arriving on the wire, and isolation of confusable names (the srv engine of C11, judged for C07 only)
         differential(check, 'C07', 'srv', 'srv', tier, seed, replay, 2, 20, extract_between_bars, sample_lines=10, timeout=1800, driver_extra=['c07'], shards=8)
     check.coverage['rule'] = ('strings assembled around the grammar: components of length {0,1,2,3,4,63,64,65,66,130,random} over [A-Za-z0-9_-] with an '
-                              'optional odd character (separators, controls, 2/3/4-byte UTF-8, U+203F, ZWJ, combining marks, non-ASCII digits) at a random '
+                              'optional odd character (half from a list: separators, controls, 2/3/4-byte UTF-8 boundaries, U+203F, ZWJ, combining marks, non-ASCII digits, characters that case folding or compatibility mappings relate to ASCII letters/digits/-/_ such as U+017F U+212A U+0130 fullwidth forms; half any Unicode scalar value) at a random '
                               'position, reserved-word variants, 16 shapes of slash placement, plus (namespace, topic) pairs for create(); one seeded PRNG; '
-                              'non-trivial = distinct input line ; srv: raw peers register on valid / invalid / reserved names over loopback QUIC (first reply compared with the model and the grammar), then five confusable names (swapped parts, shifted split point, shared namespace, shared topic) carry concurrent traffic and every subscriber must see exactly its own')
+                              'thorough tier adds an exhaustive sweep of all Unicode scalar values at six positions; non-trivial = distinct input line ; srv: raw peers register on valid / invalid / reserved names over loopback QUIC (first reply compared with the model and the grammar), then five confusable names (swapped parts, shifted split point, shared namespace, shared topic) carry concurrent traffic and every subscriber must see exactly its own')
     check.coverage['trusted_base'] = TRUSTED_BASE_COMMON + [
         'modelled, not verified: the regex crate on the translated fragment (anchored sequence of literals and bounded class repetitions; matcher proved sound and complete in P_Regex.v), str::starts_with, str::get(1..) - validated by the differential',
         'strings are modelled as lists of Unicode scalar values; UTF-8 enters only through str::get(1..) (utf8_len)',
